@@ -4,6 +4,7 @@ package main
 // heaps first touched after a havoc/merge still get the right version.
 
 import (
+	"os"
 	"fmt"
 	"sort"
 	"strings"
@@ -121,6 +122,9 @@ func (st *State) set(h *HeapInfo, t Term) { st.H[h.Name] = t }
 func (st *State) havoc(ev *Event) *State {
 	st.ex.evCounter++
 	ev.id = st.ex.evCounter
+	if os.Getenv("GOVC_DEBUG") != "" {
+		fmt.Fprintf(os.Stderr, "  event e%d: %s all=%v nkeys=%d\n", ev.id, ev.label, ev.all, len(ev.keys))
+	}
 	n := &State{ex: st.ex, H: map[string]Term{}, kind: 1, par: st, ev: ev, alloc: st.alloc, reach: st.reach, defers: st.defers}
 	if st.locks != nil {
 		n.locks = map[string]string{}
